@@ -17,11 +17,11 @@ def mp_jobs(tier, seed):
     for k in range(3 if q else 8):
         jobs.append(Job("framework.props.mpfamily", "run_mp_shim",
                         {"props": ["C03"], "seed": seed * 557 + k, "count": 25 if q else 250, "enum_limit": 3000,
-                         "samples": 200, "deadline_s": 80 if q else 600},
+                         "samples": 200, "deadline_s": 60 if q else 600},
                         mode="interp" if k % 2 else "jit", timeout=300 if q else 1500, tag="mpshim:%d" % k,
                         stall_s=90))
     jobs.append(Job("framework.props.mpfamily", "run_mp_real",
-                    {"props": ["C03"], "seed": seed * 991 + 3, "count": 10 if q else 80, "deadline_s": 80 if q else 600},
+                    {"props": ["C03"], "seed": seed * 991 + 3, "count": 10 if q else 80, "deadline_s": 60 if q else 600},
                     mode="jit", timeout=300 if q else 1500, tag="mpreal", stall_s=150))
     return jobs
 
